@@ -1710,7 +1710,10 @@ def do_conf_str_meson(src: str, data: T.List[str], confdata: 'ConfigurationData'
     for line in data:
         if line.lstrip().startswith(search_token):
             confdata_useless = False
+            eol = line[len(line.rstrip('\r\n')):]
             line = do_define_meson(regex, line, confdata, subproject)
+            # Keep the line ending of the template line (including none at the end of the file)
+            line = line[:-1] + eol
         else:
             if re.search(r'#\s*cmakedefine', line):
                 raise MesonException(f'Format error in {src}: saw "{line.strip()}" when format set to "meson"')
@@ -1743,7 +1746,10 @@ def do_conf_str_cmake(src: str, data: T.List[str], confdata: 'ConfigurationData'
                 from ..interpreterbase.decorators import FeatureNew
                 FeatureNew.single_use('whitespace between `#` and `cmakedefine`', '1.9.0', subproject)
             confdata_useless = False
+            eol = line[len(line.rstrip('\r\n')):]
             line = do_define_cmake(line, confdata, at_only, subproject)
+            # Keep the line ending of the template line (including none at the end of the file)
+            line = line[:-1] + eol
         else:
             if '#mesondefine' in line:
                 raise MesonException(f'Format error in {src}: saw "{line.strip()}" when format set to "{variable_format}"')
